@@ -26,58 +26,61 @@ def withSym {α} (s : RawSym) (f : DSymData → Outcome α) : Outcome α :=
 def encGraph (g : List String × List (Nat × Nat)) : String :=
   joinToks ([toString g.1.length] ++ g.1 ++ [toString g.2.length] ++ g.2.flatMap fun e => [toString e.1, toString e.2])
 
+def bit (b : Bool) : String := if b then "1" else "0"
+
+/-- the presentation `⟨1..n | rels⟩` as a `FundGroup` (the hooks read the number of generators and
+    the relators only; the harness builds the `FundamentalGroup` the same way) -/
+def presOf (n : Nat) (rels : List (List Int)) : FG.FundGroup :=
+  { relators := rels, cones := [], genToEdge := (List.range n).map (fun g => (g + 1, (g + 1, 0))),
+    edgeToWord := [] }
+
 def parseClasses (out : Array String) : Option (List Cls) := out.toList.mapM Cls.ofString
 
 def handler : Handler := fun op inp out =>
   let bad := ("-", fail "driver-cannot-parse-input")
   match op with
-  | "euc" | "euc_corpus" =>
+  | "euc" | "euc_corpus" | "euc_s" | "euc_corpus_s" =>
+    -- OUT: class reason t c [cover].  The message `reason` is informational (the property speaks of
+    -- the verdict CLASS only): it is echoed into the model payload, never compared.  Compared
+    -- exactly: the two facts decided before `simplify` as the code evaluates them (t: invariant in
+    -- the table; c: a pseudo-toroidal cover exists, `-` when t = 0), the class whenever the model
+    -- decides it (every `no` before `simplify`), and on `yes` the cover itself.
     match run (do let deep ← P.nat; let _rep ← P.nat; let s ← P.rawSym; let e ← P.atEnd
                   if e then pure (deep, s) else failure) inp with
     | none => bad
     | some (deep, s) =>
       let pre := withSym s Euc.isEuclideanPrefix
-      let m := match pre with
-        | .ok (some v, _) => v.render
-        | .ok (none, _) => "-"
+      let model (cls reason : String) : String := match pre with
+        | .ok (some (.no .invariants), _) => joinToks ["no", reason, "0", "-"]
+        | .ok (some _, _) => joinToks ["no", reason, "1", "0"]
+        | .ok (none, some c) =>
+          if cls == "yes" then joinToks [cls, reason, "1", "1", encSym c] else joinToks [cls, reason, "1", "1"]
+        | .ok (none, none) => "MODEL-INCONSISTENT"
         | .err => "MODEL-FUEL"
         | .panic => "PANIC"
-      -- the model's prefix found the invariant in the table AND a pseudo-toroidal cover: the verdict
-      -- is decided behind `simplify` (no model), but it can no longer be one of the two `no`s that
-      -- are decided before it — checked here, since the exact payload comparison cannot express it
-      let modelFoundCover := match pre with
-        | .ok (none, some _) => true
-        | _ => false
-      let prefixClause (cls : Cls) (reason : String) : List (String × Bool) :=
-        [("model-found-invariant-and-cover-so-verdict-is-not-decided-before-simplify",
-          !modelFoundCover || !(cls == .no && (reason == Euc.NoReason.invariants.text ||
-            reason == Euc.NoReason.noCover.text)))]
-      let corpus := op == "euc_corpus"
+      let corpus := op == "euc_corpus" || op == "euc_corpus_s"
       let g := specG s
-      if isPanic out then (m, check (verdictClauses g .panic "-" none corpus (deep == 1)))
+      if isPanic out then (model "panic" "-", check (verdictClauses g .panic none corpus (deep == 1)))
       else
         match run (do
             let c ← P.tok
             let reason ← P.tok
+            let t ← P.tok
+            let cv ← P.tok
             match Cls.ofString c with
             | none => failure
             | some cls =>
-              if cls == .yes then
-                let f ← P.nat
-                if f == 0 then
-                  let e ← P.atEnd
-                  if e then pure (cls, reason, (none : Option RawSym)) else failure
-                else
-                  let cov ← P.rawSym
-                  let e ← P.atEnd
-                  if e then pure (cls, reason, some cov) else failure
+              if cls == .yes && cv == "1" then
+                let cov ← P.rawSym
+                let e ← P.atEnd
+                if e then pure (c, cls, reason, t, cv, some cov) else failure
               else
                 let e ← P.atEnd
-                if e then pure (cls, reason, none) else failure) out with
-        | none => (m, fail "no-verdict-returned")
-        | some (cls, reason, cov) =>
-          -- the model payload covers the verdict tokens only (a `yes` is never predicted)
-          (m, check (verdictClauses g cls reason (cov.map specG) corpus (deep == 1) ++ prefixClause cls reason))
+                if e then pure (c, cls, reason, t, cv, (none : Option RawSym)) else failure) out with
+        | none => (model "?" "-", fail "no-verdict-returned")
+        | some (c, cls, reason, t, cv, cov) =>
+          (model c reason, check (verdictClauses g cls (cov.map specG) corpus (deep == 1) ++
+            [("facts-before-simplify-are-bits", (t == "0" && cv == "-") || (t == "1" && (cv == "0" || cv == "1")))]))
   | "eucinv" =>
     match run (do let k ← P.nat; let vs ← P.rep (k + 2) P.rawSym; let e ← P.atEnd; if e then pure vs else failure) inp with
     | none => bad
@@ -95,13 +98,45 @@ def handler : Handler := fun op inp out =>
       match parseClasses out with
       | none => ("-", fail "no-verdicts-returned")
       | some cls => ("-", check (coverConsistencyClauses (specG s) (cs.map specG) cls))
-  | "ograph" =>
+  | "ograph" | "ograph_s" =>
     match run (do let s ← P.rawSym; let e ← P.atEnd; if e then pure s else failure) inp with
     | none => bad
     | some s =>
       let m := modelStr encGraph (withSym s Euc.orbifoldGraph)
       (m, check [("harness-error-input-outside-domain", inDomain3d (specG s)),
                  ("returns-without-panic", !isPanic out)])
+  | "oinv" | "oinv_s" =>
+    -- the FULL string of `orbifold_invariant` and `INVARIANTS.contains` of it, on any 3D symbol
+    match run (do let s ← P.rawSym; let e ← P.atEnd; if e then pure s else failure) inp with
+    | none => bad
+    | some s =>
+      let m := modelStr (fun inv => inv ++ " " ++ bit (Euc.inInvariantTable inv)) (withSym s Euc.orbifoldInvariant)
+      (m, check (invariantStringClauses (specG s) (isPanic out) (out.toList.head?.getD "")
+        (out.toList.getLast?.getD "" == "1")))
+  | "intable" =>
+    match inp.toList with
+    | [tok] => (bit (Euc.inInvariantTable tok), check [("returns-without-panic", !isPanic out)])
+    | _ => bad
+  | "bsc" =>
+    match run (do let idx ← P.nat; let ex ← P.nat; let n ← P.nat; let rels ← P.intss; let e ← P.atEnd
+                  if e then pure (idx, ex, n, rels) else failure) inp with
+    | none => bad
+    | some (idx, ex, n, rels) =>
+      (modelStr bit (Euc.badSubgroupCount (presOf n rels) idx ex),
+       check (subgroupCountClauses n rels idx ex (isPanic out) (out.toList.head?.getD "" == "1")))
+  | "bsi" =>
+    match run (do let idx ← P.nat; let ex ← P.nats; let n ← P.nat; let rels ← P.intss; let e ← P.atEnd
+                  if e then pure (idx, ex, n, rels) else failure) inp with
+    | none => bad
+    | some (idx, ex, n, rels) =>
+      (modelStr bit (Euc.badSubgroupInvariants (presOf n rels) idx ex),
+       check (subgroupInvariantsClauses n rels idx ex (isPanic out) (out.toList.head?.getD "" == "1")))
+  | "bcc" =>
+    match run (do let s ← P.rawSym; let e ← P.atEnd; if e then pure s else failure) inp with
+    | none => bad
+    | some s =>
+      (modelStr bit (withSym s Euc.badConnectedComponents),
+       check [("returns-without-panic", s.dim == 0 || !isPanic out)])
   | _ => ("-", fail s!"driver-unknown-op-{op}")
 
 end DrvC17
